@@ -14,16 +14,23 @@ RECORDS: list = []
 _orig_holder = {}
 
 
-def install():
+BY_CODE: dict = {}            # code object of every generated function -> Record (never cleared)
+_orig_by_globals: dict = {}   # id(module globals of a utilfuncmake copy) -> clone of its original make_func
+
+
+def install(force=False):
+    """Install the spy on the copy of beartype currently in sys.modules."""
     global _installed
-    if _installed:
-        return
     from beartype._util.func import utilfuncmake as m
+    gid = id(m.make_func.__globals__)
+    if gid in _orig_by_globals:
+        return
     orig = m.make_func
     clone = types.FunctionType(
         orig.__code__, orig.__globals__, 'make_func_orig',
         orig.__defaults__, orig.__closure__)
     clone.__kwdefaults__ = orig.__kwdefaults__
+    _orig_by_globals[gid] = clone
     _orig_holder['f'] = clone
 
     def spy(func_name, func_code, func_globals=None, func_locals=None,
@@ -32,11 +39,16 @@ def install():
         import bearverif.capture as _c
         if func_locals is None:
             func_locals = {}
-        res = _c._orig_holder['f'](
+        res = _c._orig_by_globals[id(globals())](
             func_name, func_code, func_globals, func_locals, func_doc,
             func_label, func_labeller, func_wrapped, is_debug,
             *(() if exception_cls is None else (exception_cls,)))
-        _c.RECORDS.append(_c.Record(func_name, func_code, dict(func_locals), func_globals, res))
+        rec = _c.Record(func_name, func_code, dict(func_locals), func_globals, res)
+        _c.RECORDS.append(rec)
+        try:
+            _c.BY_CODE[res.__code__] = rec
+        except Exception:
+            pass
         return res
     # spy must not have free variables: it does not (uses import inside).
     m.make_func.__code__ = spy.__code__
